@@ -243,6 +243,27 @@ fn session_level(rep: &mut Report, thorough: bool) {
             cases.push((format!("first frame (no settings) cmd={cmd:#04x}"), role, enc(cmd, 1, b"x"), false));
         }
     }
+    // text payloads that are VALID for their frame type except for one byte: a parsable padding scheme, valid settings,
+    // an error text — with byte k replaced by 0xff (never valid UTF-8) or 0xc3 (a lone lead byte), for every k
+    {
+        let texts: Vec<(&str, u8, u32, Vec<u8>)> = vec![
+            ("pushed scheme (built-in default text)", UPDATE_PADDING, 0, DEFAULT.as_bytes().to_vec()),
+            ("settings", SETTINGS, 0, b"v=2\nclient=anytls-rs/0.1.0\npadding-md5=0123456789abcdef0123456789abcdef".to_vec()),
+            ("server settings", SERVER_SETTINGS, 0, b"v=2\nextra=some-longer-value-to-have-offsets".to_vec()),
+            ("synack error text", SYNACK, 1, b"Failed to connect to example.com:443: connection refused (os error 111)".to_vec()),
+            ("alert text", ALERT, 0, b"fatal: the server is going away for maintenance, please reconnect later".to_vec()),
+        ];
+        for (tn, cmd, id, text) in &texts {
+            for k in 0..text.len() {
+                for bad in [0xffu8, 0xc3] {
+                    let mut t = text.clone();
+                    t[k] = bad;
+                    let role = *cmd == SETTINGS; // settings go to a server, the others to a client
+                    cases.push((format!("{tn} with byte {k} replaced by {bad:#04x}"), role, enc(*cmd, *id, &t), *cmd != SETTINGS));
+                }
+            }
+        }
+    }
     run_cases(rep, cases, "single");
     // pairs over the reduced alphabet
     let cmds: Vec<u8> = if thorough { (0..=12).chain([0x7f, 0xff]).collect() } else { (0..=10).collect() };
@@ -724,5 +745,5 @@ pub fn run(tier: Tier) -> i32 {
     if after > before && rep.observations.is_empty() {
         rep.observe(format!("{} panic(s) were counted by the process-wide hook during the run", after - before));
     }
-    rep.finish("IX: single frames over all 256 command bytes x 4 ids x 9 payloads (settings, garbage, invalid UTF-8, 65535 bytes, hostile scheme texts) and all pairs over a reduced alphabet, both roles; every bit flip (first 160 bytes), truncation, frame duplication, adjacent swap and length-field corruption of a recorded conversation in both directions; destination / UDP parsers on all 256 type bytes x lengths x truncations; HTTP header blocks with multi-byte characters at every offset and degenerate targets; LX: malformed input on both front-ends followed by a well-formed sibling request, header blocks that never end (1 MiB of LF-free or terminator-free input against the 64 KiB limit), and connections stalling with incomplete input (held open) on both front-end listeners and the server's TLS listener while a sibling request arrives; oracle: no panic, no spin, and afterwards a well-formed exchange works or the session closed cleanly; non-trivial = distinct case")
+    rep.finish("IX: single frames over all 256 command bytes x 4 ids x 9 payloads (settings, garbage, invalid UTF-8, 65535 bytes, hostile scheme texts, long multi-byte texts; valid scheme / settings / error texts with one byte replaced by 0xff or 0xc3 at every offset) and all pairs over a reduced alphabet, both roles; every bit flip (first 160 bytes), truncation, frame duplication, adjacent swap and length-field corruption of a recorded conversation in both directions; destination / UDP parsers on all 256 type bytes x lengths x truncations; HTTP header blocks with multi-byte characters at every offset and degenerate targets; LX: malformed input on both front-ends followed by a well-formed sibling request, header blocks that never end (1 MiB of LF-free or terminator-free input against the 64 KiB limit), and connections stalling with incomplete input (held open) on both front-end listeners and the server's TLS listener while a sibling request arrives; oracle: no panic, no spin, and afterwards a well-formed exchange works or the session closed cleanly; non-trivial = distinct case")
 }
